@@ -6,6 +6,7 @@ package main
 import (
 	"context"
 	"fmt"
+	tmtoken "github.com/inspirer/textmapper/parsers/tm/token"
 	"math/rand"
 	"runtime"
 	"strings"
@@ -126,6 +127,9 @@ func shippedTokenOffsets(which, text string) []int {
 			if int(t) == 0 {
 				break
 			}
+			if t == tmtoken.COMMENT || t == tmtoken.MULTILINECOMMENT || t == tmtoken.INVALID_TOKEN {
+				continue // reported, never shifted
+			}
 			s, _ := l.Pos()
 			offs = append(offs, s)
 		}
@@ -159,6 +163,12 @@ func tmSentence(rng *rand.Rand) string {
 			fmt.Fprintf(&sb, "r%d: (id separator id)+ r%d -> N%d ;\n", i, rng.Intn(i), i)
 		default:
 			fmt.Fprintf(&sb, "r%d: id r%d ;\n", i, rng.Intn(i))
+		}
+		switch rng.Intn(16) {
+		case 0:
+			sb.WriteString("# a comment\n")
+		case 1:
+			sb.WriteString("/* a comment */\n")
 		}
 	}
 	s := sb.String()
